@@ -80,8 +80,10 @@ class CancelStageHandler(StabilizeHandler[CancelStage]):
             # Cancel all tasks that are still running
             from stabilize.resilience.cancellation import cancel_task
 
+            canceled_tasks = []
             for task in stage.tasks:
                 if task.status in {WorkflowStatus.NOT_STARTED, WorkflowStatus.RUNNING}:
+                    canceled_tasks.append(task)
                     self.set_task_status(task, WorkflowStatus.CANCELED)
                     task.end_time = self.current_time_millis()
                     # Signal any cooperatively-cancellable task currently executing
@@ -101,6 +103,17 @@ class CancelStageHandler(StabilizeHandler[CancelStage]):
             # Atomic: store stage + message deduplication
             with self.repository.transaction(self.queue) as txn:
                 txn.store_stage(stage)
+
+                # Tasks canceled here get their completion event in the same
+                # commit: without it an event-sourced replay kept them RUNNING
+                # (or never saw them) while the store says CANCELED.
+                if self.event_recorder and canceled_tasks:
+                    workflow_id = stage.execution.id if stage.execution else ""
+                    self.set_event_context(workflow_id)
+                    for task in canceled_tasks:
+                        self.event_recorder.record_task_completed(
+                            task, workflow_id=workflow_id, source_handler="CancelStageHandler"
+                        )
 
                 # Message deduplication
                 if message.message_id:
